@@ -41,12 +41,21 @@ Definition ext_eqb (a b : jext) : bool :=
   && (length (entries a) =? length (entries b))
   && forallb (entry_in b) (entries a).
 
+(** Python exception CLASSES are compared only where a property names the class (IndexError of get_meta); for
+    get_subset / from_sequence / __getitem__ the properties say at most "refused", so any error matches any error. *)
+Definition res_eqb_loose {A} (eqb : A -> A -> bool) (x y : res A) : bool :=
+  match x, y with
+  | Ok a, Ok b => eqb a b
+  | Err _, Err _ => true
+  | _, _ => false
+  end.
+
 (** * get_subset *)
 Record subset_case := mk_subset_case {
   sc_ext : jext; sc_dim : nat; sc_idx : nat;
   sc_obs : res jext }.
 Definition run_subset (c : subset_case) : res jext := get_subset jv_eqb JNull (sc_ext c) (sc_dim c) (sc_idx c).
-Definition check_subset (c : subset_case) : bool := res_eqb ext_eqb (run_subset c) (sc_obs c).
+Definition check_subset (c : subset_case) : bool := res_eqb_loose ext_eqb (run_subset c) (sc_obs c).
 
 (** * from_sequence *)
 Record merge_case := mk_merge_case {
@@ -54,7 +63,7 @@ Record merge_case := mk_merge_case {
   mc_obs : res jext }.
 Definition run_merge (c : merge_case) : res jext :=
   from_sequence jv_eqb JNull (mc_exts c) (mc_dim c) (mc_aff c) (mc_sdim c).
-Definition check_merge (c : merge_case) : bool := res_eqb ext_eqb (run_merge c) (mc_obs c).
+Definition check_merge (c : merge_case) : bool := res_eqb_loose ext_eqb (run_merge c) (mc_obs c).
 
 (** * lookups: get_meta, meta_valid for all six classes, __getitem__ *)
 Record lookup_case := mk_lookup_case {
@@ -72,9 +81,34 @@ Fixpoint lbool_eqb (a b : list bool) : bool :=
   | x :: xs, y :: ys => Bool.eqb x y && lbool_eqb xs ys
   | _, _ => false
   end.
+(** the index is not a valid voxel index of the image (wrong length, negative or too large entry) *)
+Definition bad_index (im : img) (ix : option (list Z)) : bool :=
+  match ix with
+  | None => false
+  | Some l => negb ((length l =? length (ishape im)) && index_in_bounds l (ishape im))
+  end.
+
+(** get_meta: exact, except that where the model answers with a value (constant / default: the property does not say
+    that these win over a bad index) an IndexError for a bad index is accepted too *)
+Definition get_matches (c : lookup_case) (r : res jv) : bool :=
+  res_eqb jv_eqb r (lc_obs c)
+  || (bad_index (lc_img c) (lc_index c) && is_ok r && res_eqb jv_eqb (Err EIndex) (lc_obs c)).
+
 Definition check_lookup (c : lookup_case) : bool :=
   let '(r, mv, it) := run_lookup c in
-  res_eqb jv_eqb r (lc_obs c) && lbool_eqb mv (lc_valid c) && res_eqb jv_eqb it (lc_item c).
+  get_matches c r && lbool_eqb mv (lc_valid c) && res_eqb_loose jv_eqb it (lc_item c).
+
+(** several lookups on ONE (image, extension) state: a step of a lookup history (props/c08.py lookup_hist) *)
+Record lookup_query := mk_lookup_query {
+  lq_key : key; lq_index : option (list Z); lq_default : jv;
+  lq_obs : res jv; lq_valid : list bool; lq_item : res jv }.
+Definition hist_step := (img * jext * list lookup_query)%type.
+Definition case_of_query (im : img) (e : jext) (q : lookup_query) : lookup_case :=
+  mk_lookup_case im e (lq_key q) (lq_index q) (lq_default q) (lq_obs q) (lq_valid q) (lq_item q).
+Definition check_step (s : hist_step) : bool :=
+  let '(im, e, qs) := s in forallb (fun q => check_lookup (case_of_query im e q)) qs.
+Definition run_step (s : hist_step) :=
+  let '(im, e, qs) := s in map (fun q => run_lookup (case_of_query im e q)) qs.
 
 (** the generators promise valid, nondegenerate inputs: checked here too so that a generator slip shows
     up as a mismatch instead of silently leaving the domain *)
